@@ -35,6 +35,7 @@ def shard(ctx: Ctx) -> None:
     sweep.connect_fault_sweep(ctx, PROP)   # resolver / TCP / setsockopt / rejection worlds: a failed phase must leave the object CLOSED
     sweep.same_turn_pairs_sweep(ctx, PROP)
     sweep.stalled_connect_sweep(ctx, PROP)
+    sweep.high_water_sweep(ctx, PROP)
     sweep.abandoned_disconnect_sweep(ctx, PROP)
     sweep.reconnect_in_on_stop_sweep(ctx, PROP)
     if ctx.thorough:
